@@ -300,6 +300,28 @@ func ruleOverwriteProvenance(rule string) func(*Ctx) {
 				}
 				c.verdictIf(good, rule, gw, "forwarded overwrite", cs.Call.Pos(), "the manager passes on its configured overwrite (or false after the first writer)", "GetWriter passes an overwrite value that is not the manager's configured one")
 			}
+			// "only the first writer overwrites" is a latch: outside the constructor the marker is only ever set to true
+			if ow := c.field("pkg/tape", "TapeManager", "overwrote"); ow != nil {
+				k := 0
+				for _, st := range c.storesTo(ow) {
+					if _, isKV := st.Node.(*ast.KeyValueExpr); isKV {
+						continue
+					}
+					k++
+					sinfo := st.In.Pkg.TypesInfo
+					latched := false
+					if st.Value != nil {
+						if tv := sinfo.Types[st.Value]; tv.Value != nil && tv.Value.String() == "true" {
+							latched = true
+						}
+					}
+					c.verdictIf(latched, rule, st.In, fmt.Sprintf("overwrote latch#%d", k), st.Node.Pos(), "the first-writer marker is only ever set",
+						"the marker that keeps later writers from overwriting is assigned a computed value instead of being latched to true: a writer that did not overwrite clears it again, and the writer after that truncates (or rewinds) the drive underneath the live index")
+				}
+				if k == 0 {
+					c.unresolved("no store to TapeManager.overwrote found")
+				}
+			}
 		}
 	}
 }
